@@ -22,7 +22,12 @@ fn u64_of(v: &Value) -> u64 {
 /// Which property owns each kind of step.
 pub fn owner(op: &str) -> &'static [&'static str] {
     match op {
-        "c_from" | "c_set" | "t_to_cont" => &["C19"],
+        "c_from" | "c_set" | "t_to_cont" | "c_select5" => &["C19"],
+        "c_mark" => &["C20", "C19"],
+        "x_find" => &["C05"],
+        "s_has" => &["C15"],
+        "t_parse" => &["C12"],
+        "x_cmp" => &["C07"],
         "c_sort" => &["C11"],
         "c_shift" => &["C08"],
         "c_valid" => &["C04"],
@@ -58,6 +63,58 @@ pub fn replay_behaviour(steps: &[Value]) -> Option<(usize, String, Value)> {
                     let post = words_of(&e["post"]);
                     if h.to_arr() != post || h.accessors() != post || h.iter_vec() != post || h.first() != post[0] {
                         return Err(json!({"got": hilo_arr(&h.to_arr())}));
+                    }
+                }
+                "c_mark" => {
+                    let slot = a["slot"].as_u64().unwrap() as usize;
+                    let w = h.get(slot);
+                    let m = match a["mark"].as_str().unwrap() {
+                        "pair" => w.flag_as_pair(),
+                        "trips" => w.flag_as_trips(),
+                        _ => w.flag_as_quads(),
+                    };
+                    h.set(slot, m);
+                    let post = words_of(&e["post"]);
+                    if h.to_arr() != post || h.accessors() != post {
+                        return Err(json!({"got": hilo_arr(&h.to_arr())}));
+                    }
+                }
+                "c_select5" => {
+                    let p: Vec<u8> = a["perm"].as_array().unwrap().iter().map(|x| x.as_u64().unwrap() as u8).collect();
+                    let f = h.five_from_permutation([p[0], p[1], p[2], p[3], p[4]]).expect("six or seven slots");
+                    if f.to_arr().to_vec() != words_of(&e["res"]) {
+                        return Err(json!({"got": hilo_arr(&f.to_arr())}));
+                    }
+                }
+                "x_find" => {
+                    // must return normally; the index itself is advisory (not compared here)
+                    let _ = ckc_rs::cards::five::Five::find_in_products(a["key"].as_u64().unwrap() as usize);
+                }
+                "s_has" => {
+                    if json!(x.has(u64_of(&a["arg"]))) != e["res"] {
+                        return Err(json!({"got": x.has(u64_of(&a["arg"]))}));
+                    }
+                }
+                "t_parse" => {
+                    let text: String = a["s"].as_array().unwrap().iter().map(|c| char::from_u32(c.as_u64().unwrap() as u32).unwrap()).collect();
+                    match Hand::parse(a["n"].as_u64().unwrap() as usize, &text) {
+                        Ok(p) => {
+                            h = p;
+                            if h.to_arr() != words_of(&e["post"]) {
+                                return Err(json!({"got": hilo_arr(&h.to_arr())}));
+                            }
+                        }
+                        Err(err) => return Err(json!({"got": err})),
+                    }
+                }
+                "x_cmp" => {
+                    use ckc_rs::hand_rank::HandRank;
+                    let (ra, rb) = (HandRank::from(a["a"].as_u64().unwrap() as u16), HandRank::from(a["b"].as_u64().unwrap() as u16));
+                    let got = format!("{:?}", ra.cmp(&rb));
+                    let exp = e["cmp"].as_str().unwrap();
+                    let ok = if exp == "NotEqual" { got != "Equal" } else { got == exp };
+                    if !ok || (ra < rb) != (got == "Less") || (ra == rb) != (a["a"] == a["b"]) {
+                        return Err(json!({"got": got}));
                     }
                 }
                 "c_sort" => {
